@@ -317,24 +317,25 @@ Theorem C05_pauli_first : forall n,
 Proof. exact pauliP_first. Qed.
 Print Assumptions C05_pauli_onb.
 
-(* --- FINDING (code since 9255946, listed in known_findings.d/C05.jsonl): a multi-qubit pulse mapped onto the whole
-       register together with an identifier mapping or an additional noise Hamiltonian makes extend raise
-       ValueError('Require nonzero number of args!') (tensor_insert with pos = []) instead of returning the renamed /
-       augmented pulse; the faithful bookkeeping model raises too --- *)
-Theorem C05_full_register_refuted :
-  extend [mkEntry fr_pulse (QTup [0; 1]) (Some [("a", "A"); ("n", "Nn")]%string)] None 2 None None None None = Raise ErrNoArgs
-  /\ extend [mkEntry fr_pulse (QTup [0; 1]) None] None 2 (Some (4, ["extra"%string])) None None None = Raise ErrNoArgs
+(* --- a multi-qubit pulse mapped onto the whole register together with an identifier mapping or an additional noise
+       Hamiltonian (no shortcut since 9255946): the code since e379e51 extends it like any other input and never calls
+       util.tensor_insert without arguments; between 9255946 and e379e51 it raised (model [extend_prefix]) --- *)
+Theorem C05_never_noargs : forall entries Narg dq additional cd cff om,
+  extend entries Narg dq additional cd cff om <> Raise ErrNoArgs.
+Proof. exact extend_never_noargs. Qed.
+Theorem C05_full_register :
+  (exists pl, extend [mkEntry fr_pulse (QTup [0; 1]) (Some [("a", "A"); ("n", "Nn")]%string)] None 2 None None None None = Extended pl
+      /\ pl_N pl = 2 /\ pl_c_ids pl = ["A"%string] /\ pl_n_ids pl = ["Nn"%string] /\ pl_steps pl = []
+      /\ pl_c_src pl = [FromPulse 0 0] /\ pl_n_src pl = [FromPulse 0 0])
+  /\ (exists pl, extend [mkEntry fr_pulse (QTup [1; 0]) None] None 2 (Some (4, ["extra"%string])) None None None = Extended pl
+      /\ pl_remaps pl = [[1; 0]] /\ pl_c_ids pl = ["a_01"%string] /\ pl_n_ids pl = ["extra"%string; "n_01"%string]
+      /\ pl_n_src pl = [Additional 0; FromPulse 0 0] /\ pl_steps pl = [])
   /\ extend [mkEntry fr_pulse (QTup [0; 1]) None] None 2 None None None None = ReturnSame [].
-Proof. exact full_register_refuted. Qed.
-(* the statement that fails: such an input should be extended like the single-qubit analogue is *)
-Definition C05_full_register_full : Prop := forall p qs m N,
-  1 < length qs -> length (set_diff N qs) = 0 -> exists pl,
-  extend [mkEntry p (QTup qs) (Some m)] (Some N) 2 None None None None = Extended pl.
-Example C05_full_register_single_ok :
-  exists pl, extend [mkEntry (mkPdesc 2 ["a"%string] ["n"%string] "Pauli" 0 false false None false false false false) (QInt 0)
-                       (Some [("a", "A"); ("n", "Nn")]%string)] None 2 None None None None = Extended pl
-             /\ pl_c_ids pl = ["A"%string] /\ pl_n_ids pl = ["Nn"%string] /\ pl_N pl = 1.
-Proof. exact full_register_single_ok. Qed.
+Proof. exact full_register_ok. Qed.
+Theorem C05_full_register_prefix_refuted :
+  extend_prefix [mkEntry fr_pulse (QTup [0; 1]) (Some [("a", "A"); ("n", "Nn")]%string)] None 2 None None None None = Raise ErrNoArgs
+  /\ extend_prefix [mkEntry fr_pulse (QTup [0; 1]) None] None 2 (Some (4, ["extra"%string])) None None None = Raise ErrNoArgs.
+Proof. exact full_register_prefix_refuted. Qed.
 
 (* --- the hypotheses are satisfiable --- *)
 Example C05_ex_krel : forall d1 d2 A B, krel d1 d2 A B (mkron d1 d2 A B).
